@@ -93,4 +93,55 @@ SEEDS = [
 		return nil
 	}
 	if got := targetPart.GetSize(); got < expectedSize {""")]},
+ {"name": "c13-refactor-mbr-sector-maths-through-getters", "properties": ["C13", "C02"], "silent": True, "expect": "",
+  "edits": [e("partition/mbr/partition.go", """func (p *Partition) GetSize() int64 {
+	_, lss := p.sectorSizes()
+	return int64(p.Size) * int64(lss)
+}
+func (p *Partition) GetStart() int64 {
+	_, lss := p.sectorSizes()
+	return int64(p.Start) * int64(lss)
+}""", """func (p *Partition) GetSize() int64 {
+	return p.sectorsToBytes(p.Size)
+}
+func (p *Partition) GetStart() int64 {
+	return p.sectorsToBytes(p.Start)
+}
+
+// sectorsToBytes converts a count of logical sectors, as stored in the partition entry, to bytes
+func (p *Partition) sectorsToBytes(sectors uint32) int64 {
+	_, lss := p.sectorSizes()
+	return int64(sectors) * int64(lss)
+}"""),
+            e("partition/mbr/partition.go", """	start := uint64(p.Start) * uint64(lss)
+	size := uint64(p.Size) * uint64(lss)
+""", """	_ = lss
+	start := uint64(p.GetStart())
+	size := uint64(p.GetSize())
+""", 2)]},
+ {"name": "c13-mbr-sector-maths-helper-wraps", "properties": ["C13", "C02"], "expect": "|(*mbr.Partition).Get",
+  "edits": [e("partition/mbr/partition.go", """func (p *Partition) GetSize() int64 {
+	_, lss := p.sectorSizes()
+	return int64(p.Size) * int64(lss)
+}
+func (p *Partition) GetStart() int64 {
+	_, lss := p.sectorSizes()
+	return int64(p.Start) * int64(lss)
+}""", """func (p *Partition) GetSize() int64 {
+	return p.sectorsToBytes(p.Size)
+}
+func (p *Partition) GetStart() int64 {
+	return p.sectorsToBytes(p.Start)
+}
+
+func (p *Partition) sectorsToBytes(sectors uint32) int64 {
+	_, lss := p.sectorSizes()
+	return int64(sectors * uint32(lss))
+}"""),
+            e("partition/mbr/partition.go", """	start := uint64(p.Start) * uint64(lss)
+	size := uint64(p.Size) * uint64(lss)
+""", """	_ = lss
+	start := uint64(p.GetStart())
+	size := uint64(p.GetSize())
+""", 2)]},
 ]
